@@ -26,7 +26,7 @@ def load_prop(prop_id: str):
     return importlib.import_module(f'sa.props.{prop_id.lower()}')
 
 
-def analyse(prop_id: str, ss: SourceSet, tier: str) -> Report:
+def analyse(prop_id: str, ss: SourceSet, tier: str, imports: bool = True) -> Report:
     mod = load_prop(prop_id)
     rep = Report(prop_id, tier, ss.label)
     rep.decided = list(getattr(mod, 'DECIDED', []))
@@ -37,7 +37,77 @@ def analyse(prop_id: str, ss: SourceSet, tier: str) -> Report:
     except Undecided as exc:
         # a construct outside the evaluator's vocabulary reached a rule unguarded: loud, never a silent pass
         raise AnalysisError(f'abstract evaluator: {exc}') from exc
+    if imports:
+        _run_imports(prop_id, ss, tier, rep)
     return rep
+
+
+_SIBLING_CACHE: Dict[Any, Any] = {}
+
+
+def _sibling_report(sib: str, ss: SourceSet, tier: str):
+    """The sibling's own analysis of the same sources (without its imports), or the reason it could not be made."""
+    key = (sib, id(ss), tier)
+    if key not in _SIBLING_CACHE:
+        if len(_SIBLING_CACHE) > 64:
+            _SIBLING_CACHE.clear()
+        try:
+            _SIBLING_CACHE[key] = (ss, analyse(sib, ss, tier, imports=False), None)
+        except (AnalysisError, Undecided) as exc:
+            _SIBLING_CACHE[key] = (ss, None, str(exc)[:300])
+        except RecursionError as exc:
+            _SIBLING_CACHE[key] = (ss, None, f'RecursionError {exc}'[:300])
+        except Exception as exc:      # pylint: disable=broad-except
+            _SIBLING_CACHE[key] = (ss, None, f'internal error in the sibling\'s rules: {type(exc).__name__}: {exc}'[:300])
+    return _SIBLING_CACHE[key][1:]
+
+
+def _run_imports(prop_id: str, ss: SourceSet, tier: str, rep: Report) -> None:
+    """Re-report, under this property, the findings of sibling rules that are necessary conditions of it."""
+    import re as _re
+    from .props.imports import IMPORTS, decided_lines
+    from .report import load_known
+    table = IMPORTS.get(prop_id, [])
+    if not table:
+        return
+    rep.decided.extend(decided_lines(prop_id))
+    known = load_known().get('findings', [])
+    imported = []
+    for sib, rules, where, reason in table:
+        srep, err = _sibling_report(sib, ss, 'quick')
+        tag = f'{prop_id}<-{sib}'
+        if srep is None:
+            for rname in rules:
+                rep.rule(rname, f'[imported from {sib}] not decided here', 0)
+                rep.undecided(rname, sib, f'{tag} {rname}', f'the rules of {sib} could not read the tree ({err}); '
+                              f'{sib}\'s own check reports that')
+            continue
+        sib_known = {k['key'] for k in known if k.get('property') == sib}
+        for rname in rules:
+            sr = srep.rules.get(rname)
+            info = rep.rule(rname, f'[imported from {sib}{"" if where is None else ", at /" + where + "/"}] '
+                            + (sr.text if sr else ''), 0)
+            if sr is None:
+                continue
+            got = [f for f in srep.findings if f.rule == rname and f.key not in sib_known
+                   and (where is None or _re.search(where, f'{f.path}|{f.func}|{f.construct}'))]
+            info.instances += sr.discharged + sr.undecided + len(got)
+            info.discharged += sr.discharged
+            info.undecided += sr.undecided
+            for s in sr.samples[:2]:
+                if s.get('verdict') == 'discharged' and len(info.samples) < 3:
+                    info.samples.append(dict(s))
+            for f in got:
+                if all(g.key != f.key for g in rep.findings):
+                    f.chain = list(f.chain) + [f'imported into {prop_id}: {reason}']
+                    rep.findings.append(f)
+                    info.refuted += 1
+                    info.samples.insert(0, {'where': f'{f.path}:{f.line}', 'obligation': f'{f.func} [{f.construct}]',
+                                            'verdict': 'refuted', 'why': f.message})
+            imported.append({'from': sib, 'rule': rname, 'where': where, 'findings': len(got)})
+        rep.analysed_functions |= srep.analysed_functions
+        rep.analysed_modules |= srep.analysed_modules
+    rep.extra['imported_rules'] = imported
 
 
 # ---------------------------------------------------------------------------------------
